@@ -123,7 +123,7 @@ def step (s : State) : Op → Res Out × State
   | .listIndexes c => withColl s c fun coll => (.ok (.names coll.indexes), s)
   | .createCollectionByQuery c q fresh =>
     if (lookup c s).isSome then (.err .collExist, s)
-    else match lookup q.coll s with
+    else match lookup q.coll (insert c ({} : Coll) s) with   -- the target exists (empty) when the query runs
       | none => (.err .collNotExist, s)
       | some src => createWith s c (assignIds (findAll likeFn fnFam q src) fresh)
   | .importDocs c docs fresh =>
